@@ -175,12 +175,18 @@ def impl_builtin(case):
             probe.predict(core.wrap_container(case, X))
             bs = core.borderline_scale(case, probe.scores["score"], float(CBS.get_default_threshold(nf, case["p"], case["mx"])))
             scale = scale if bs is None else bs
-        det = CBS(_mk(case["score"]), threshold_scale=scale, level=case["level"], min_segment_length=m,
+        cost = _mk(case["score"])
+        det = CBS(cost, threshold_scale=scale, level=case["level"], min_segment_length=m,
                   max_interval_length=case["mx"], growth_factor=case["g"])
         # ndarray or DataFrame; fitted on the data, on a series of another length, or on an object overwritten in place
         # afterwards; the fitted detector may have been used on other data with the same index before
         data, nfit = core.fit_for(det, case, X, reps=1)  # circular binary segmentation is cubic in the interval length
         data = core.prior_use(det, case, X, data)
+        if core._bits(case, 32, 3) == 0:  # a sibling detector holding the SAME cost object works on other data in between
+            sib = CBS(cost, threshold_scale=0.5, min_segment_length=m)
+            Y = X[::-1] * 2.0 + 1.0
+            det.predict(data)
+            sib.fit(Y).predict(Y)
         y = det.predict(data)
         T = det.scores
         ivs = [(int(a), int(b)) for a, b in zip(T["interval_start"], T["interval_end"])]
